@@ -88,77 +88,3 @@ fn to_u32_unaligned_panics() {
     kani::assume(n <= 12 && n % 4 != 0);
     let _ = to_u32(&b[..n]);
 }
-
-const FREE: u32 = 0xFFFF_FFFF;
-fn put32(img: &mut [u8], off: usize, v: u32) {
-    let b = v.to_le_bytes();
-    img[off] = b[0];
-    img[off + 1] = b[1];
-    img[off + 2] = b[2];
-    img[off + 3] = b[3];
-}
-/// BOUNDED exploration of `Cfb::new` (assumed contract in Verus): a 512-byte-sector image of header + 3 sectors
-/// (sector 0 = FAT, sectors 1..2 = directory/data), symbolic first-directory sector and symbolic FAT entries restricted to
-/// acyclic in-file chains, no DIFAT chain, no mini FAT. Checked: no panic, Ok, and the directory list has 4 entries per
-/// directory sector with start/len decoded from the right offsets.
-#[kani::proof]
-#[kani::stub(encoding_rs::Encoding::decode, decode_stub)]
-#[kani::unwind(132)]
-fn new_small_image() {
-    let mut img = [0u8; 2048];
-    let sig = [0xD0u8, 0xCF, 0x11, 0xE0, 0xA1, 0xB1, 0x1A, 0xE1];
-    let mut i = 0;
-    while i < 8 {
-        img[i] = sig[i];
-        i += 1;
-    }
-    img[26] = 3; // major version 3
-    img[30] = 9; // sector shift
-    img[32] = 6; // mini sector shift
-    put32(&mut img, 44, 1); // one FAT sector
-    let dir_start: u32 = kani::any();
-    kani::assume(dir_start == 1 || dir_start == 2);
-    put32(&mut img, 48, dir_start);
-    put32(&mut img, 60, ENDOFCHAIN); // no mini FAT
-    put32(&mut img, 68, ENDOFCHAIN); // no DIFAT sector
-    put32(&mut img, 76, 0); // DIFAT[0] = sector 0
-    let mut k = 1;
-    while k < 109 {
-        put32(&mut img, 76 + 4 * k, FREE);
-        k += 1;
-    }
-    // FAT (sector 0 at offset 512): entry 0 = FATSECT, entries 1, 2 symbolic (forward or end), rest free
-    put32(&mut img, 512, 0xFFFF_FFFD);
-    let f1: u32 = kani::any();
-    let f2: u32 = kani::any();
-    kani::assume(f1 == ENDOFCHAIN || f1 == 2);
-    kani::assume(f2 == ENDOFCHAIN);
-    put32(&mut img, 516, f1);
-    put32(&mut img, 520, f2);
-    let mut k = 3;
-    while k < 128 {
-        put32(&mut img, 512 + 4 * k, FREE);
-        k += 1;
-    }
-    // directory entry 0 of the first directory sector: symbolic start / size fields
-    let base = 512 + 512 * dir_start as usize;
-    let st: u32 = kani::any();
-    let ln: u32 = kani::any();
-    put32(&mut img, base + 116, st);
-    put32(&mut img, base + 120, ln);
-    let mut rdr: &[u8] = &img;
-    let r = Cfb::new(&mut rdr, 2048);
-    match r {
-        Ok(c) => {
-            let nsect = if dir_start == 1 && f1 == 2 { 2 } else { 1 };
-            assert!(c.directories.len() == 4 * nsect);
-            assert!(c.directories[0].start == st);
-            assert!(c.directories[0].len == ln as usize);
-            assert!(c.fats.len() == 128);
-            assert!(c.fats[1] == f1 && c.fats[2] == f2);
-            assert!(c.mini_fats.is_empty());
-        }
-        Err(_) => assert!(false),
-    }
-    kani::cover!(dir_start == 1 && f1 == 2);
-}
